@@ -208,7 +208,7 @@ func genC15(r *Rng, n int, tier string, emit func(Case)) {
 	}
 	for i := 0; i < n; i++ {
 		rr := r.Fork()
-		switch i % 10 {
+		switch i % 12 {
 		case 0, 1, 2: // well-formed expressions of the supported subset: must be accepted with the JavaScript tree
 			t := newTenv(rr.Fork())
 			d := rr.Range(1, 6)
@@ -275,6 +275,66 @@ func genC15(r *Rng, n int, tier string, emit func(Case)) {
 				s = strings.Repeat("(", k) // unbalanced
 			}
 			emit(Case{"kind": "parse", "src": s, "bucket": "deep"})
+		case 10: // regular-expression literals assembled from every group / class / escape / quantifier opener, cut at any point
+			pieces := []string{"(", "(?", "(?:", "(?=", "(?!", "(?<", "(?<=", "(?<!", "(?<n>", ")", "[", "[^", "]", "[a-", "\\", "\\d", "\\u", "\\u00", "\\u0041",
+				"\\x", "\\x4", "\\c", "\\cA", "\\1", "\\k<n>", "\\/", "{", "{1", "{1,", "{1,2}", "{,}", "}", "*", "+", "?", "*?", "|", "^", "$", ".", "a", "b", "0", " ", "é", "-"}
+			var b strings.Builder
+			for j := 0; j < rr.Range(1, 7); j++ {
+				b.WriteString(pieces[rr.Intn(len(pieces))])
+			}
+			pat := b.String()
+			if rr.Chance(1, 3) {
+				rs := []rune(pat)
+				pat = string(rs[:rr.Intn(len(rs)+1)])
+			}
+			flags := []string{"", "g", "gi", "m", "x", "gg", "y"}[rr.Intn(7)]
+			lit := "/" + pat + "/" + flags
+			var s string
+			switch rr.Intn(4) {
+			case 0:
+				s = lit
+			case 1:
+				s = "x = " + lit
+			case 2:
+				s = "return " + lit + ".test(a)"
+			default:
+				s = "a.replace(" + lit + ", '')"
+			}
+			emit(Case{"kind": "parse", "src": s, "bucket": "regex"})
+		case 11: // a last line that is an inline source map (ParseFile decodes and loads it before parsing)
+			body := []string{"var a = 1", "a +", "x = (", "", "f(1,2)\nvar b", "/ab/"}[rr.Intn(6)]
+			maps := []string{
+				`{"version":3,"sources":["a.js"],"names":[],"mappings":"AAAA"}`,
+				`{"version":3,"sources":["a.js"],"names":["x"],"mappings":"AAAAA,CAAC;AACD"}`,
+				`{"version":3,"sections":[{}]}`,
+				`{"version":3,"sections":[{"offset":{"line":0,"column":0},"map":null}]}`,
+				`{"version":3,"sections":[{"offset":{"line":0,"column":0},"map":{"version":3,"sources":["a.js"],"mappings":"AAAA"}}]}`,
+				`{"version":3,"sections":[{"offset":{"line":5,"column":-1},"map":{"version":2,"mappings":"A"}}]}`,
+				`{"version":3,"sources":[],"mappings":"AAAA"}`,
+				`{"version":3,"sources":["a.js"],"mappings":"AACA;;;AAAA,gBAAgB"}`,
+				`{"version":3,"sources":["a.js"],"mappings":"zzzz"}`,
+				`{"version":3,"sources":["a.js"],"mappings":"!!"}`,
+				`{"version":3,"sourceRoot":"%zz","sources":["a.js"],"mappings":""}`,
+				`{"version":3,"sourceRoot":"http://h/r/","sources":["../a.js",":"],"mappings":"AAAA"}`,
+				`{"version":3,"sources":["a.js"],"names":[1,null,{"a":1}],"mappings":"AAAAA"}`,
+				`{"version":3,"sources":["a.js"],"mappings":"AAgggggggggggggggggB"}`,
+				`{"version":2}`, `{"version":"3"}`, `{}`, `[]`, `null`, `3`, `{"version":3`, ``,
+			}
+			m := maps[rr.Intn(len(maps))]
+			if rr.Chance(1, 3) {
+				m = mutate(rr, m)
+			}
+			enc := base64.StdEncoding.EncodeToString([]byte(m))
+			if rr.Chance(1, 8) {
+				enc = enc[:rr.Intn(len(enc)+1)] + "*"
+			}
+			head := []string{"//# sourceMappingURL=data:application/json;base64,", "//# sourceMappingURL=data:application/json;charset=utf-8;base64,",
+				"//# sourceMappingURL=data:application/json,", "//# sourceMappingURL=data:application/json"}[rr.Intn(4)]
+			s := body + "\n" + head + enc
+			if rr.Chance(1, 6) {
+				s += "\n"
+			}
+			emit(Case{"kind": "parse", "src": strings.ToValidUTF8(s, "?"), "src64": base64.StdEncoding.EncodeToString([]byte(s)), "bucket": "srcmap"})
 		default: // function bodies that try to leave the wrapper ParseFunction puts around them
 			parts := []string{"return 1", "}", ")", "})", "(function(){", ", ", ";", "x", "\n", "})()", "/*", "//", "'", "`", "}), (function(){", "}); (function(){", "});", "function f(){}", "("}
 			var b strings.Builder
